@@ -26,7 +26,7 @@ ASSUMPTIONS = [
     "not generated: a property literally named 'geometry', keys with mixed value types across features, 'properties': null, empty-string property values (the library's string NA is '')",
     "numbers compare by value (1 == 1.0), booleans strictly",
 ]
-REACH = {"quick": {"features:0": 100, "null-geometry": 300, "hostile-member-name": 300, "ragged-properties": 800, "suffix:compressed": 500, "written-json-parsed": 2500}}
+REACH = {"quick": {"features:0": 100, "null-geometry": 300, "hostile-member-name": 300, "ragged-properties": 800, "suffix:compressed": 500, "written-json-parsed": 2500, "features:>1000": 3}}
 
 GEOMS = [{"type": "Point", "coordinates": [24.94, 60.17]}, {"type": "LineString", "coordinates": [[0, 0], [1.5, 2]]},
          {"type": "Polygon", "coordinates": [[[0, 0], [1, 0], [1, 1], [0, 0]]]}, {"type": "MultiPolygon", "coordinates": [[[[0, 0], [1, 0], [1, 1], [0, 0]]]]},
@@ -37,6 +37,8 @@ MEMBER_VALUES = ["text", 3, 2.5, True, None, [1, "a", None, {"k": [1.5]}], {"typ
 
 def generate(rng, tier):
     nf = rng.choice([0, 1, 2, 3, 5, 8])
+    if rng.random() < 0.004:
+        nf = rng.choice([1001, 1500, 2500])      # size-dependent writer/reader paths
     keys = rng.sample(["id", "name", "pop", "ratio", "flag", "a b", "ünï"], rng.randint(0, 5))
     kinds = {k: rng.choice(["bool", "int", "float", "str"]) for k in keys}
     pools = {"bool": [True, False], "int": [0, 1, -5, 10**12], "float": [0.5, -2.25, 1e-7, 3.0], "str": ["x", "a b", 'q"uote', "ünï", "back\\slash", "line\nbreak"]}
@@ -90,6 +92,7 @@ def execute(case):
     res = Result(sig=f"f{min(nf, 3)}|{sorted(case['kinds'].values())}|m{len(members)}h{int(hostile)}|i{indent}|{suffix}",
                  nontrivial=nf >= 2 or bool(members))
     res.cls(f"features:{nf if nf < 3 else '3+'}")
+    if nf > 1000: res.cls("features:>1000")
     if any(f["geometry"] is None for f in feats): res.cls("null-geometry")
     if hostile: res.cls("hostile-member-name")
     if suffix: res.cls("suffix:compressed")
